@@ -144,7 +144,9 @@ func c19r3(r *R) {
 	for _, fn := range withClosures(dm) {
 		for _, c := range calls(fn, func(s string) bool { return strings.HasSuffix(s, ".Unredacted") && strings.HasPrefix(s, "invoke ") }) {
 			n++
-			g := guardedBy(c.(ssa.Instruction).Block(), func(s string) bool { return strings.HasSuffix(s, ".Unredacted") && !strings.HasPrefix(s, "!") && !strings.HasPrefix(s, "invoke") })
+			g := guardedBy(c.(ssa.Instruction).Block(), func(s string) bool {
+				return strings.HasSuffix(s, ".Unredacted") && !strings.HasPrefix(s, "!") && !strings.HasPrefix(s, "invoke")
+			})
 			r.check(g, "DescribeFlagsToMap#Unredacted()", c.Pos(), "unredacted value only under the Unredacted option", "the unredacted flag value is used without the Unredacted option being set")
 		}
 	}
@@ -219,16 +221,19 @@ func c19r4(r *R) {
 		})
 	}
 	// (b) by source
-	type src struct{ callee string; allowed map[string]string }
+	type src struct {
+		callee  string
+		allowed map[string]string
+	}
 	srcs := []src{
 		{"(*net/url.Userinfo).Password", map[string]string{
-			"(*dialvia.HTTPProxyDialer).DialContextR": "builds Proxy-Authorization for the upstream hop",
+			"(*dialvia.HTTPProxyDialer).DialContextR":  "builds Proxy-Authorization for the upstream hop",
 			"(*dialvia.SOCKS5ProxyDialer).DialContext": "SOCKS5 authentication",
-			"(*forwarder.HTTPProxy).basicAuth":        "expected password for the constant-time comparison",
-			"(*forwarder.HTTPProxy).setBasicAuth":     "builds the site Authorization header",
-			"bind.RedactUserinfo":                     "presence test only (R2 checks the value is unused)",
-			"forwarder.RedactHostPortUser":            "presence test only",
-			"(*forwarder.HostPortUser).String":        "the unredacted printer (its callers are checked below)",
+			"(*forwarder.HTTPProxy).basicAuth":         "expected password for the constant-time comparison",
+			"(*forwarder.HTTPProxy).setBasicAuth":      "builds the site Authorization header",
+			"bind.RedactUserinfo":                      "presence test only (R2 checks the value is unused)",
+			"forwarder.RedactHostPortUser":             "presence test only",
+			"(*forwarder.HostPortUser).String":         "the unredacted printer (its callers are checked below)",
 			"(*forwarder.HTTPServer).configureHandler": "API server basic auth: expected password for comparison",
 			"(*forwarder.HTTPServer).handler":          "API server basic auth: expected password for comparison",
 			"forwarder.withMiddleware":                 "API server basic auth: expected password for comparison",
